@@ -12,7 +12,12 @@ thread is in at most one `send` at a time (program order). Every other API call 
 step (`api`): subscribe/unsubscribe publish their change to readers at one instant (the
 left-right `live_idx` store, under the writer lock), the receive forms run under one mailbox
 mutex, the handle counters are single atomic updates, and a sender's `close_internal` only sets
-monotone per-mailbox flags. That granularity is an assumption of B (tied to the code by the
+monotone per-mailbox flags. A receiver that finds its mailbox empty inside a blocking receive form
+registers itself as the waiter, RELEASES the mailbox mutex and only then parks (`park`); it comes
+back by `wake` (unpark, timeout) and re-runs the receive form. B also has a step the code does
+NOT have, `parkHolding`: parking with the mutex still held (what `recv_sync`/`recv_timeout_sync`
+would do without their `drop(guard)`); it exists so that "publishing never blocks" can be seen
+to DEPEND on the release: `deliver` needs the mutex of the mailbox it visits. That granularity is an assumption of B (tied to the code by the
 real-thread stress monitors only, not by the differential run).
 
 History variables (they never influence the run): the log of accepted publishes with the
@@ -43,6 +48,9 @@ inductive BOp where
   | api (op : Op)                                   -- any call other than `send`, atomic
   | begin (tid h : Nat) (t : Topic) (v : Val)       -- `send`: checks + snapshot
   | deliver (tid : Nat)                             -- `send`: visit the next mailbox / return Ok
+  | park (r : Nat)                                  -- blocking receive on an empty mailbox: register, unlock, park
+  | wake (r : Nat)                                  -- unpark / timeout: the receiver runs again
+  | parkHolding (r : Nat)                           -- NOT a step of the code: park without releasing the mutex
   deriving DecidableEq, Repr
 
 structure BSt where
@@ -51,9 +59,11 @@ structure BSt where
   pubs : List BPub                -- ghost
   acc : Nat → List Nat            -- ghost: publish ids that entered mailbox m, in arrival order
   got : Nat → List Msg            -- ghost: what receiver r obtained, in order
+  parked : List Nat               -- receivers parked inside a blocking receive form
+  held : List Nat                 -- mailboxes whose mutex is held across steps (always [] for the code's steps)
 
 def binit (cap : Nat) (k : Kind) : BSt :=
-  { q := init cap k, flights := [], pubs := [], acc := fun _ => [], got := fun _ => [] }
+  { q := init cap k, flights := [], pubs := [], acc := fun _ => [], got := fun _ => [], parked := [], held := [] }
 
 def flightOf (fs : List Flight) (tid : Nat) : Option Flight := fs.find? (fun f => f.tid == tid)
 
@@ -101,14 +111,36 @@ def bdeliver (b : BSt) (tid : Nat) : BSt :=
     match f.rem with
     | [] => { b with flights := b.flights.filter (fun g => g.tid != tid) }     -- Ok(())
     | m :: rest =>
+      if b.held.contains m then b       -- the mailbox mutex is not available: the send waits
+      else
       { b with q := visitQ b.q m (f.t, f.v),
                flights := b.flights.map (fun g => if g.tid == tid then { g with rem := rest } else g),
                acc := bumpAcc b.acc m f.pid (grewAt b.q (visitQ b.q m (f.t, f.v)) m) }
+
+/-- a blocking receive form found the mailbox empty and not disconnected -/
+def bpark (b : BSt) (r : Nat) (holding : Bool) : BSt :=
+  match rxLive b.q r with
+  | none => b
+  | some x =>
+    if x.buf.isEmpty && !x.disc then
+      { b with parked := r :: b.parked, held := if holding then r :: b.held else b.held }
+    else b
+
+def bwake (b : BSt) (r : Nat) : BSt :=
+  { b with parked := b.parked.filter (fun x => x != r), held := b.held.filter (fun x => x != r) }
 
 def bstep (b : BSt) : BOp → BSt
   | .api op => bapi b op
   | .begin tid h t v => bbegin b tid h t v
   | .deliver tid => bdeliver b tid
+  | .park r => bpark b r false
+  | .wake r => bwake b r
+  | .parkHolding r => bpark b r true
+
+/-- the steps the code can take -/
+def BOp.isCode : BOp → Bool
+  | .parkHolding _ => false
+  | _ => true
 
 def brun (b : BSt) : List BOp → BSt
   | [] => b
